@@ -47,8 +47,9 @@ def sanitised_levels(fn):
                 out[lvl] = (n.lineno, same, enclosing_conjuncts(fn, n) or [])
         if isinstance(n, ast.Expr) and isinstance(n.value, ast.Call) and isinstance(n.value.func, ast.Attribute) \
                 and n.value.func.attr == "set_layout_info" \
-                and any("_relativize_and_fit_to_screen(" in src(a) for a in n.value.args):
-            inner = [a for a in n.value.args if "_relativize_and_fit_to_screen(" in src(a)][0]
+                and any("_relativize_and_fit_to_screen(" in src(resolve_local(fn, a)) for a in n.value.args):
+            # (the sanitised value may be bound to a local first)
+            inner = [resolve_local(fn, a) for a in n.value.args if "_relativize_and_fit_to_screen(" in src(resolve_local(fn, a))][0]
             same = "get_layout_info(" in src(inner)
             out["language"] = (n.lineno, same, enclosing_conjuncts(fn, n) or [])
     return out
